@@ -803,3 +803,158 @@ class MCrash(Monitor):
                         st, out, err, ex["status"], ex.get("output"), ex.get("error")), arn, None, first=ex["status"], second=st, error=str(err), what=what)
     def state(self):
         return [sorted(self.running), sorted(self.term.items()), sorted(self.cids.items())]
+
+# ------------------------------------------------------------------------------------------------------
+class MTime(Monitor):
+    """C08 firing clauses on the virtual clock: a Wait exits at max(target, dispatch instant) and never before its target;
+    a Task not completed by entry+TimeoutSeconds fails with States.Timeout at that instant and is never completed later;
+    the execution deadline fails the execution at StartTime+TimeoutSeconds and not before; a superseded task timer never fires."""
+    name = "M-time"
+    TOL = 1e-6
+    def __init__(self, scenario):
+        super().__init__()
+        self.waits = {}      # (arn, state) -> [target, dispatch time]
+        self.tasks = {}      # (arn, state) -> deadline
+        self.execs = {}      # arn -> deadline
+        self.hist = {}
+        self.flagged = set()
+
+    def _defs(self, w, sm_arn_):
+        for sname, sarn in w.machines.items():
+            if sarn == sm_arn_:
+                return w.sc["machines"][sname]["definition"]
+        return None
+
+    @staticmethod
+    def _find(defn, name):
+        if isinstance(defn, dict):
+            sts = defn.get("States")
+            if isinstance(sts, dict) and name in sts:
+                return sts[name]
+            for v in defn.values():
+                r = MTime._find(v, name)
+                if r is not None:
+                    return r
+        elif isinstance(defn, list):
+            for v in defn:
+                r = MTime._find(v, name)
+                if r is not None:
+                    return r
+        return None
+
+    def on_op(self, w, op):
+        from ref import rfc3339, jsonpath as JP
+        if op["op"] == "deliver" and op.get("arn") and op.get("queue", "").startswith("asl_workflow_events"):
+            # find the message just handed over
+            for conn in w.broker.connections:
+                if not conn.is_open:
+                    continue
+                for ch in conn.channels:
+                    ent = ch.unacked.get(op["tag"])
+                    if ent and ent[1].props.message_id == op.get("message_id"):
+                        obj = ent[1].meta()[1]
+                        self._on_event(w, obj, rfc3339, JP)
+        elif op["op"] == "timer_fired":
+            kind = op.get("kind", "")
+            self.last_timer_delay = op.get("delay")
+            if kind.endswith("asl_service_rpcmessage.<locals>.on_timeout") or kind.endswith("asl_service_states_startExecution.<locals>.on_timeout"):
+                from .fingerprint import _closure_info
+                cid = _closure_info(op.get("callback")).get("correlation_id")
+                for inst in w.live_instances():
+                    if inst.conn.name == op.get("connection"):
+                        if cid not in inst.engine.task_dispatcher.pending_requests and ("sup", cid) not in self.flagged:
+                            self.flagged.add(("sup", cid))
+                            self.flag(w, "superseded_timer_fired", "the time-out timer of a task that is no longer pending fired", None, None, timer="on_timeout")
+
+    def _on_event(self, w, obj, rfc3339, JP):
+        try:
+            ctx = obj["context"]
+            arn = ctx["Execution"]["Id"]
+            name = ctx["State"].get("Name")
+            defn = self._defs(w, ctx["StateMachine"]["Id"])
+            now = w.clock.now
+            if defn is None:
+                return
+            start = float(rfc3339.parse(ctx["Execution"]["StartTime"]))
+            if "TimeoutSeconds" in defn:
+                self.execs.setdefault(arn, start + defn["TimeoutSeconds"])
+            if not name:
+                return
+            st = self._find(defn, name)
+            if not isinstance(st, dict):
+                return
+            entered = float(rfc3339.parse(ctx["State"]["EnteredTime"]))
+            if st.get("Type") == "Wait":
+                data = obj.get("data")
+                try:
+                    inp = JP.get(data, st.get("InputPath", "$"))
+                except Exception:
+                    return
+                target = None
+                if "Seconds" in st:
+                    target = entered + st["Seconds"]
+                elif "SecondsPath" in st:
+                    target = entered + JP.get(inp, st["SecondsPath"])
+                elif "Timestamp" in st:
+                    target = float(rfc3339.parse(st["Timestamp"]))
+                elif "TimestampPath" in st:
+                    target = float(rfc3339.parse(JP.get(inp, st["TimestampPath"])))
+                if target is not None:
+                    self.waits[(arn, name)] = [target, now]
+            elif st.get("Type") == "Task" and "TimeoutSeconds" in st:
+                self.tasks[(arn, name)] = entered + st["TimeoutSeconds"]
+        except Exception:
+            return
+
+    def after_step(self, w, label):
+        for e in w.engines():
+            for arn, h in e.execution_history.items():
+                n0 = self.hist.get(arn, 0)
+                hl = list(h)
+                for ev in hl[n0:]:
+                    t = ev.get("type"); ts = ev.get("timestamp")
+                    if t == "WaitStateExited":
+                        nm = ev["stateExitedEventDetails"]["name"]
+                        ent = self.waits.get((arn, nm))
+                        if ent:
+                            target, disp = ent
+                            if ts < target - self.TOL:
+                                self.flag(w, "wait_early", "Wait %s exited at +%.6f, %.6f s before its target instant" % (nm, ts - disp, target - ts), arn, None, state=nm)
+                            elif abs(ts - max(target, disp)) > self.TOL:
+                                self.flag(w, "wait_late", "Wait %s exited %.6f s after max(target, dispatch)" % (nm, ts - max(target, disp)), arn, None, state=nm)
+                    elif t in ("LambdaFunctionTimedOut", "TaskTimedOut"):
+                        cur = [k for k in self.tasks if k[0] == arn]
+                        ok = any(abs(ts - self.tasks[k]) <= self.TOL for k in cur)
+                        # a timer armed when the deadline had already passed (late delivery) fires at once: late but never early
+                        if not ok and getattr(self, "last_timer_delay", None) == 0 and all(ts >= self.tasks[k] - self.TOL for k in cur):
+                            ok = True
+                        if cur and not ok:
+                            self.flag(w, "task_timeout_instant", "%s at %r, task deadline(s) %r" % (t, ts, [self.tasks[k] for k in cur]), arn, None)
+                    elif t in ("LambdaFunctionSucceeded", "TaskSucceeded"):
+                        for k in [k for k in self.tasks if k[0] == arn]:
+                            pass
+                    elif t == "TaskStateExited":
+                        nm = ev["stateExitedEventDetails"]["name"]
+                        dl = self.tasks.get((arn, nm))
+                        if dl is not None and ts > dl + self.TOL and not any(x.get("type") in ("LambdaFunctionTimedOut", "TaskTimedOut") for x in hl):
+                            self.flag(w, "task_completed_after_deadline", "Task %s completed %.6f s after entry+TimeoutSeconds" % (nm, ts - dl), arn, None, state=nm)
+                self.hist[arn] = len(hl)
+            break
+
+    def on_note(self, w, note):
+        d = (note["body"] or {}).get("detail") or {}
+        arn, st = d.get("executionArn"), d.get("status")
+        if st in TERMINAL and arn in self.execs:
+            dl = self.execs[arn]
+            t = note["time"]
+            cause = d.get("cause") or ""
+            exec_timeout = d.get("error") == "States.Timeout" and "Execution ran for longer" in cause
+            if exec_timeout and t < dl - self.TOL:
+                self.flag(w, "execution_timeout_early", "execution timed out %.6f s before StartTime+TimeoutSeconds" % (dl - t), arn, None)
+            if t > dl + self.TOL and not (d.get("error") == "States.Timeout"):
+                self.flag(w, "execution_outlived_deadline", "execution ended %s %.6f s after StartTime+TimeoutSeconds" % (st, t - dl), arn, None, first=st)
+            if exec_timeout and t > dl + 61 + self.TOL:
+                self.flag(w, "execution_timeout_late", "execution timed out %.6f s after its deadline" % (t - dl), arn, None)
+
+    def state(self):
+        return [sorted((list(k), v) for k, v in self.waits.items()), sorted((list(k), v) for k, v in self.tasks.items()), sorted(map(str, self.flagged))]
